@@ -70,6 +70,10 @@ def cases(tier, seed):
     for above in (["map"], ["flat_map"], ["timeout"], ["cos"], ["throttle"], ["map", "map"]):
         out.append({"name": "nested.race/retry>%s" % ">".join(above), "kind": "nestedrace", "above": above,
                     "cap": 20 if tier == "quick" else None})
+    # a second client submits while a callable, run inline by the retry thread, submits again
+    for above in ([], ["map"], ["cos"]):
+        for target in ("top", "retry"):
+            out.append({"name": "nested.second-client/retry>%s/%s" % (">".join(above), target), "kind": "secondclient", "above": above, "target": target})
     for layers in stacks1 + (stacks2 if tier == "thorough" else stacks2[:6]):
         out.append({"name": "nested.cb/%s" % ">".join(layers), "kind": "nestedcb", "layers": layers})
     # a raising poll function fails the futures it was shown; their done-callbacks (which submit again) run on the poll
@@ -436,6 +440,56 @@ class NestedRaceScenario(object):
 
 class NestedRaceSweep(Sweep):
     pass
+
+
+def run_secondclient(case, res):
+    """sync > retry [> X]: the retry thread runs callable A inline; A submits again (to the retry executor or to the
+    top of the stack) while a second client thread is inside submit() with its own callable."""
+    ME = instr.ME
+    begin("rt")
+    ctx = Ctx()
+    try:
+        base = ctx.own(ME.Executors.sync())
+        retry = ctx.own(base.with_retry(max_attempts=1))
+        cur = retry
+        for t in case["above"]:
+            cur = ctx.own(cur.with_map(lambda x: x) if t == "map" else cur.with_cancel_on_shutdown())
+        target = retry if case["target"] == "retry" else cur
+        go = instr._RealEvent()
+        started = instr._RealEvent()
+        nested = []
+
+        def job_a():
+            started.set()
+            go.wait(10)
+            try:
+                nested.append(target.submit(lambda: "nested"))
+            except RuntimeError:
+                pass
+            return "a"
+        fa = cur.submit(job_a)
+        if not started.wait(10):
+            raise Inconclusive("callable A never started")
+        b = ctx.actor("B", cur.submit, lambda: "b").go()
+        harness.wait_done_or_blocked(b)
+        go.set()
+        why = drive([b], timeout=20, use_time=False)
+        t_end = instr._real_monotonic() + 10
+        while instr._real_monotonic() < t_end and not (fa.done() or LM.deadlocks):
+            import time as _t
+            _t.sleep(0.01)
+        res.execs += 1
+        inv = [d for d in LM.deadlocks if any("RetryExecutor" in t for t in d["threads"])]
+        rel = "target-is-retry" if case["target"] == "retry" or not case["above"] else "target-above-retry"
+        check_common(res, deadlock_suffix="@nested/callable/%s/second-client%s" % (rel, "/retry-thread-in-cycle" if inv else ""))
+        if not LM.deadlocks and (why != "ok" or not fa.done()):
+            res.violation("hang/nested.second-client/%s" % case["target"], "second client's submit() or callable A did not finish: %s"
+                          % instr.describe_threads(), stacks=hang_report(ctx.actors))
+        if LM.deadlocks:
+            harness.mark_recycle()
+        res.key("secondclient", ">".join(case["above"]), case["target"])
+    finally:
+        end(ctx)
 
 
 def run_nested_race(case, res):
@@ -974,6 +1028,8 @@ def run_case(case, res):
         return run_nested_race(case, res)
     if case["kind"] == "nestedcb":
         return run_nestedcb(case, res)
+    if case["kind"] == "secondclient":
+        return run_secondclient(case, res)
     if case["kind"] == "blockretry":
         return run_blockretry(case, res)
     if case["kind"] == "blockretrym":
